@@ -45,6 +45,7 @@ type tNode struct {
 	Seed     int64 // content seed
 	Target   string
 	Children []*tNode
+	Lit      []byte // literal file content (overrides Size/Seed)
 }
 
 func tFile(name string, size int, seed int64) *tNode {
@@ -73,6 +74,9 @@ func (n *tNode) materialise(parent string) error {
 	p := filepath.Join(parent, n.Name)
 	switch n.Kind {
 	case "file":
+		if n.Lit != nil {
+			return os.WriteFile(p, n.Lit, 0o644)
+		}
 		return os.WriteFile(p, c18Content(n.Seed, n.Size), 0o644)
 	case "symlink":
 		return os.Symlink(n.Target, p)
@@ -258,6 +262,12 @@ func c18Tree(profile string, seed int64, thorough bool) *tNode {
 		root.add(tDir("twin1", tFile("a.bin", sz, s), tDir("e"), tLink("l", "a.bin")))
 		root.add(tDir("twin2", tFile("a.bin", sz, s), tDir("e"), tLink("l", "a.bin")))
 		root.add(tLink("l", "a.bin"))
+		// files whose bytes equal the encoding of a UnixFS node that is also in the tree (same multihash,
+		// other codec: the archive stores the bytes once): an empty directory, an empty file node
+		root.add(tDir("empty-dir"))
+		root.add(&tNode{Name: "bytes-of-an-empty-dir-node.bin", Kind: "file", Lit: []byte{0x0a, 0x02, 0x08, 0x01}})
+		root.add(&tNode{Name: "bytes-of-an-empty-file-node.bin", Kind: "file", Lit: []byte{0x0a, 0x04, 0x08, 0x02, 0x18, 0x00}})
+		root.add(tFile("really-empty.bin", 0, 1))
 	case "mixed":
 		var fill func(d *tNode, depth int, budget *int)
 		fill = func(d *tNode, depth int, budget *int) {
